@@ -90,6 +90,7 @@ strengthened = {
     "C12-k": "C12: a violation of a C10 clause (group membership, names) in a run with injected failures also counts for C12 (groups_after_failure: later requests proceed as if the failed one had succeeded)",
     "C20-l": "C20: every falsy item is put twice in a row (the very same object back to back; counter put.same_object_as_previous has a floor) and a sweep base scenario of back-to-back put_nowait",
     "C18-l": "not seen by C18 (every line is still answered once); caught by C16.member_help / C16.command_set, the property the cached help text really breaks",
+    "C03-l": "C03: an un-owed CancelledError that lands inside a callback is a C03 clause of its own (C03.cb_undisturbed); it used to be filed under C06 / C07 / C14 / C15 only and showed as NOTE lines in C03 runs",
     "C16-k": "C16: after the help round another client with a different terminal width connects (to another pool of the process); the help shown to the first client must not change",
     "C17-k": "C17: pool sizes beyond 2**53 (2**53+1, 10**18+1, 10**30)",
     "C18-k": "C18: application code waits for the close of the served pool and gives up (its until_closed() call is cancelled); parked sessions must stay alive (their session task is checked)",
